@@ -177,6 +177,9 @@ var scenarios = []scenario{
 				r.RunUntil(g, schedrv.YAsyncLocked)
 			}
 			r.RunUntil(gs[1], schedrv.YHandleLocked)
+			// the other two run into the full semaphore and wait there
+			r.Do(schedrv.Decision{K: "try", T: gs[0]})
+			r.Do(schedrv.Decision{K: "try", T: gs[2]})
 			r.Drain(nil)
 		}},
 	{name: "explicit-waits-for-announce-sync", cfg: schedrv.Config{NPub: 2, Cap: 2, ChainLen: 4},
@@ -224,6 +227,9 @@ func randomRun(rng *vlib.Rand, cfg schedrv.Config, g genCfg) *schedrv.Run {
 				d.Fail = true
 			}
 			opts = append(opts, opt{d, 12})
+		}
+		for _, t := range r.Waiting() {
+			opts = append(opts, opt{schedrv.Decision{K: "try", T: t}, 5})
 		}
 		if g.anns > 0 {
 			for p := 0; p < cfg.NPub; p++ {
